@@ -80,14 +80,22 @@ def measure(entry, cfg, cats, workers):
     raise ValueError(entry)
 
 
+def outcome(entry, cfg, cats, workers):
+    """measure(), with an exception of the library as an outcome like any other (compared by its type)"""
+    try:
+        return measure(entry, cfg, cats, workers)
+    except Exception as e:
+        return ["raised", type(e).__name__], float("nan")
+
+
 def answer(req):
     from yaw import Catalog
     cfg = make_config(req["recipe"])
     cats = tuple(Catalog(p, max_workers=1) for p in req["cats"])
     out = {}
     for entry in req["entries"]:
-        b, total = measure(entry, cfg, cats, 1)
-        out[entry] = dict(digest=digest(b), total=total)
+        b, total = outcome(entry, cfg, cats, 1)
+        out[entry] = dict(digest=digest(b), total=total, raised=b[1] if b and b[0] == "raised" else None)
     return out
 
 
